@@ -199,6 +199,8 @@ def run_path(world, contract, ex, ctx, prefix, report):
                 if pn in it.old_env:
                     it.env[pn] = it.old_env[pn]
             for i, e in enumerate(contract.ensures):
+                if contract.cut_before and not p.cut_hit:
+                    break       # returned before the cut: the cut-point postconditions do not apply
                 it.check(weaken(it, contract, 'post[%d]' % i, it.truth(it.eval_text(e))),
                          'post[%d]' % i, 'postcondition', ex.node)
             # call sites treat a conditional `raises` clause as exact, so a normal return must exclude it
